@@ -2,7 +2,7 @@
    Statements only.  (Balance / freshness / order of exits and enters: Props/C02.v.) *)
 From Coq Require Import List Arith Bool.
 From M Require Import Base Flat Hsm HsmSpec.
-From P Require Import HsmForest HsmResolve HsmOffer MonadP.
+From P Require Import HsmForest HsmResolve HsmOffer MonadP CrashGen HsmExec.
 Import ListNotations.
 
 (* ---------- transition resolution ---------- *)
@@ -68,6 +68,23 @@ Proof.
   now apply sub_update_other.
 Qed.
 Print Assumptions C03_frame.
+
+(* ---------- the trace of one transition ---------- *)
+(* Under an environment that does not raise from position p on, a candidate transition
+   declared in scope sc and offered in configuration f produces exactly: its prepare
+   callbacks, its checks up to the first failing one, and - if all pass -
+   before_state_change, before, the exit callbacks of exactly the resolved exit set in its
+   order (all seeing the old configuration), the enter callbacks of exactly the resolved
+   enter set in its order and the on_final callbacks of C18 (all seeing the new
+   configuration), after, after_state_change; result and new configuration as resolved. *)
+Theorem C03_transition_trace :
+  forall (hm : hmachine) (ev : env) (c : ctx) (sc : path) (t : htrans) (p : nat) (f : forest),
+    no_raise_from_g ev p -> resolvable hm f sc t = true ->
+    Hsm.execute hm ev c sc t p f =
+      (fst (fst (spec_execute hm ev c f sc t p)), snd (fst (spec_execute hm ev c f sc t p)),
+       inr (snd (spec_execute hm ev c f sc t p))).
+Proof. exact execute_ok. Qed.
+Print Assumptions C03_transition_trace.
 
 (* ---------- offering the event (NestedEvent.trigger_nested) ---------- *)
 (* For EVERY way a single offer behaves (attempt: prepare_event, candidates in definition
